@@ -593,3 +593,97 @@ PROPS["C16"] = _dbg(
     "resuming commands (continue, step, step out, step into k), break add and goto issued wherever the program is, "
     "followed by end of input or quit, under a large iteration budget; verdict progress=ok: iterations counted by the "
     "run-loop tick hook ≤ executed instructions + commands read + 1.")
+
+
+# ---------------------------------------------------------------- C01 / C04 (abstract programs, three-way)
+def enc_classify(rq, impl):
+    f = impl.split(" ", 1)[0] if impl else "<empty>"
+    return f
+
+
+def enc_nontrivial(rq, impl):
+    # a case is an abstract program with at least one item, rendered to a non-empty text
+    f = rq.split(" ")
+    return len(f) > 4 and f[2] != "-"
+
+
+def enc_group(d):
+    return enc_classify(d["request"], d["impl"]) + "/" + (d.get("spec") or "?").split(" ", 1)[0]
+
+
+PROPS["C01"] = {
+    "theorems": [
+        "Lace.C01.emit_eq_encode_holds",
+        "Lace.C01.bitOffs_eq_pcField",
+        "Lace.C01.emitAll_eq_specWords",
+        "Lace.C01.parse_numbered",
+        "Lace.C01.image_eq_spec",
+        "Lace.C01.image_word",
+        "Lace.C01.image_depends_on_labels_only",
+        "Lace.C01.layout_irrelevant_of_assemble_image",
+        "Lace.C01.parse_stmt_tokens",
+        "Lace.C01.airOf_words",
+        "Lace.C01.stmt_tokens_to_spec",
+    ],
+    "compare": cmp_default,
+    "classify": enc_classify,
+    "nontrivial": enc_nontrivial,
+    "group": enc_group,
+    "rule": ("ABSTRACT programs (optional .orig, .break, statements with register numbers, 16-bit literal words, label "
+             "identities) rendered to text by the harness under random layouts (keyword/register case, every white-space "
+             "character incl. `,` `:` CR FF, comments, blank lines, text after .end) and literal spellings (#d, #+d, #-d, "
+             "xH, XH, 0xH, x-H, leading zeros); the driver computes spec(P) = Spec.Prog.image from the items alone and "
+             "model(text) from the text alone; three-way: impl(text) = model(text) = spec(P) on origin and every word. "
+             "Exhaustive sweeps, many statements per program: every register triple of ADD/AND, every pair of NOT, all 32 "
+             "imm5 and all 64 offset6 x register pairs, every PC-relative distance of the 9/10/11-bit fields of every form "
+             "(BR x flags, LD, LDI, LEA, ST, STI, JSR, CALL) as a label (before, after and ON the statement) and as a "
+             "literal, all 256 trap vectors, named traps, JMP/JSRR/PUSH/POP x 8, .fill boundary words (all 65,536 in the "
+             "thorough tier), .blkw 0..23, .stringz with every escape / unknown escapes / wide characters; each at origins "
+             "{none, 0, 1, x3000, x7FFF, x8000, xFDFF-512}. Plus random programs (1-400 statements, dense label graphs), "
+             "each rendered under TWO random layouts whose images must agree (`layout-diff` otherwise). Corpus: D1, D2, "
+             "D3, D6, D7 witnesses, duplicate / undefined / case-differing labels, .orig twice, stack flag."),
+    "trusted": [
+        "the harness renderer (enc.rs: AProg::pieces, asmgen.rs: layout, spell_lit) realises the relation `t is a layout of P`",
+        "text-level theorem assemble_image is stated, not proved: text -> AIR is covered by this correspondence only",
+    ],
+    "assumptions": [
+        "labels are valid label names whatever the stack flag (I13); a label marks a statement of at least one word",
+        "a program of exactly 65,535 words followed by .break / .orig is outside the generated set",
+    ],
+}
+
+PROPS["C04"] = {
+    "theorems": [
+        "Lace.C01.emit_ok_iff_fits_holds",
+        "Lace.C04.lit_range_iff",
+        "Lace.C04.expectLit_lit",
+        "Lace.C04.accept_iff_fits",
+        "Lace.C04.no_truncation",
+        "Lace.C04.reject_is_diag",
+        "Lace.C04.dup_label_rejected",
+        "Lace.C04.undefined_label_rejected",
+        "Lace.C04.second_orig_rejected",
+    ],
+    "compare": cmp_default,
+    "classify": enc_classify,
+    "nontrivial": enc_nontrivial,
+    "group": enc_group,
+    "rule": ("ABSTRACT programs whose operands are arbitrary 16-bit words and whose label distances are arbitrary, rendered "
+             "and checked three-way as for C01 (accept/reject, and origin + every word when accepted; spec(P) from the "
+             "items alone). Every instruction form with a numeric operand (ADD/AND imm5, LDR/STR offset6, BR x 7 flags / "
+             "LD / LDI / LEA / ST / STI literal 9 bits, JSR literal 11 bits, TRAP 8 bits unsigned, .fill) x operand in "
+             "{min-2, min-1, min, min+1, -1, 0, 1, max-1, max, max+1, max+2, x7FFF, x8000, xFFFF} x spellings {signed "
+             "decimal, unsigned decimal, hex, negative hex} x {no origin, x8000}; .orig at 17 boundary values x 4 "
+             "spellings, twice (4 positions), in the middle, at the end, absent; trap 0..x101 and 6 extremes; label "
+             "distances exactly +-2^(n-1), one and two short, one beyond, and 0x7FFE..0x8000 / 0xFFFC..0xFFFD made with "
+             ".blkw, for every PC-relative form, forward and backward; undefined / duplicate / case-differing labels x "
+             "every form; stack mnemonics x flag; random programs with out-of-range operands, undefined and duplicate "
+             "labels and repeated .orig, a third of them under two layouts."),
+    "trusted": [
+        "the harness renderer (enc.rs, asmgen.rs) realises the relation `t is a layout of P`",
+        "text-level theorem accept_iff_wf is stated, not proved: text -> AIR is covered by this correspondence only",
+    ],
+    "assumptions": [
+        "labels are valid label names whatever the stack flag (I13); a label marks a statement of at least one word",
+    ],
+}
